@@ -20,6 +20,8 @@ def tla_set(xs):
 
 
 def gen(module, constants, invariants, label, chk, timeout=1500, xmx="10g"):
+    if module == "MC_LoadScript":
+        constants = dict({"CorruptBytes": "{}", "TypedTargets": "{}"}, **constants)
     cfg = "SPECIFICATION Spec\nCONSTANTS\n" + "".join("  %s = %s\n" % kv for kv in constants.items()) + \
           "INVARIANTS " + " ".join(invariants) + "\n"
     r = vlib.tlc(module, cfg=write_cfg("%s_%s.cfg" % (module, label), cfg), timeout=timeout, xmx=xmx)
@@ -52,24 +54,39 @@ def replay(scens, media, chunk, tag):
     return out
 
 
-def judge(chk, pairs, what, accept_prefix_parsing_error=False):
-    """Equality of the observation with the one prescribed by the spec.  Deviation guard (spec/BinStreamReader:
-    Dev_NonSeekableStream): non-seekable medium AND the stream buffer recorded a refused seek in that run."""
+def matches(exp, o):
+    """Does observation o equal the observation prescribed by exp?  (plain comparison; no semantics here)"""
+    if "e" in o:
+        return False
+    if exp["exc"] == ["unspecified"]:
+        return True
+    if exp["exc"][0] == "damaged":
+        # truncated / corrupted document: ParsingError, or the policy error which the intact prefix already justifies
+        x = exp["exc"][1]
+        return o["exc"] == ["ser", "Parsing error"] or (x not in ("", "*", "*count") and o["exc"] == ["ser", x]) \
+            or (x in ("*", "*count") and o["exc"][0] == "ser" and o["exc"][1] in ("Mismatched types", "Overflow", "Out of range"))
+    return o["ev"] == exp["ev"] and o["exc"] == exp["exc"]
+
+
+def judge(chk, pairs, what):
+    """Equality of the observation with the one prescribed by the spec.  Deviation guards come from the spec:
+    Dev_NonSeekableStream (non-seekable medium AND a refused seek was recorded in that run), the exported `expdev`
+    expectations (observation equals what the spec prescribes under exactly that named deviation), and the reference
+    decoder's "count" verdict for Dev_PresizeFromDeclaredCount."""
     for s, o in pairs:
         exp = s["exp"]
-        if exp["exc"] == ["unspecified"]:
-            continue
-        ok = False
-        if "e" in o:
-            ok = False
-        else:
-            ok = (o["ev"] == exp["ev"] and o["exc"] == exp["exc"])
-        if ok:
+        if matches(exp, o):
             continue
         dev = None
         if o["medium"] == "nonseek" and o.get("refused"):
             dev = "Dev_NonSeekableStream"
+        elif exp["exc"] == ["damaged", "*count"] and o.get("exc") == ["std", "bad_alloc"]:
+            dev = "Dev_PresizeFromDeclaredCount"
+        else:
+            for d in s.get("expdev", []):
+                if matches(d["exp"], o):
+                    dev = d["dev"]
         desc = "%s: %s window=%d: expected %s after %d events, observed %s" % (
             what, o["medium"], o["chunk"], json.dumps(exp["exc"]), len(exp["ev"]),
             o.get("e") or (json.dumps(o["exc"]) + " after %d events" % len(o["ev"])))
-        chk.fail(desc, {"scenario": {k: s[k] for k in s if k != "exp"}, "expected": exp, "observed": o}, dev=dev)
+        chk.fail(desc, {"scenario": {k: s[k] for k in s if k not in ("exp", "expdev")}, "expected": exp, "observed": o}, dev=dev)
